@@ -261,3 +261,10 @@ mod tests {
         assert_eq!(xor_hash.leading_zeros(), 0);
     }
 }
+
+// Verification harnesses (compiled only by `cargo kani`; inert otherwise).
+#[cfg(kani)]
+#[allow(dead_code, unused_imports)]
+mod verif {
+    include!(concat!(env!("BTDHT_VERIF"), "/harness/info_hash.rs"));
+}
